@@ -1223,7 +1223,7 @@ END = "(* end of OcpGen *)"
 
 def write(repo=None, outfile=None, write_ref=False):
     repo = repo or os.environ.get("VERIF_REPO", "/repo")
-    outfile = outfile or os.path.join(VERIF, "coq", "gen", "OcpGen.v")
+    outfile = outfile or os.path.join(os.environ.get("VERIF_GEN_OUT") or os.path.join(VERIF, "coq", "gen"), "OcpGen.v")
     return gl.write_generic(repo, outfile, write_ref, units, HEADER, END, REF, "OcpGen.ref.v",
                             "OcpGen.v — by translate/gen_ocp.py", os.path.join(repo, VARS) + " , " + os.path.join(repo, LQR), BINDERS, CTX_ARGS)
 
